@@ -239,10 +239,8 @@ class Flow:
         def flatten(s):
             nonlocal pend
             if s['kind'] == 'CaseStmt':
-                val = exe.tu._const_value(s)
-                if val is None:
-                    cv = simp(exe.ev(s['inner'][0], st))
-                    val = cv.as_signed_long() if z3.is_bv_value(cv) else cv.as_long()
+                cv = simp(exe.ev(s['inner'][0], st))
+                val = cv.as_signed_long() if z3.is_bv_value(cv) else cv.as_long()
                 pend.append(val)
                 flatten(s['inner'][-1])
             elif s['kind'] == 'DefaultStmt':
@@ -324,17 +322,66 @@ class Flow:
     def _loop(self, n, st, cond, body, inc, is_do):
         exe = self.exe
         ordn, lc = self._loop_contract(n)
+        if lc is not None and lc.get('cut_unroll'):
+            return self._unroll(n, st, cond, body, inc, is_do, lc.get('unroll', MAX_UNROLL), cut=lc, ordn=ordn)
         if lc is None or lc.get('unroll'):
             return self._unroll(n, st, cond, body, inc, is_do, (lc or {}).get('unroll', MAX_UNROLL))
         return self._cutpoint(n, st, cond, body, inc, is_do, ordn, lc)
 
-    def _unroll(self, n, st, cond, body, inc, is_do, bound):
+    def _cut(self, st, cut, ordn, it, entry, written):
+        """constant-trip-count loop with a cut point at the head of every unrolled iteration:
+        assert I(it); forget everything the loop has written so far; assume I(it)."""
+        from .cexpr import eval_clauses
+        exe = self.exe
+        fn = exe.fn_stack[-1]
+        inv = cut['invariant_at'](it)
+        if not self.discovery:
+            for cname, term in eval_clauses(exe, inv, st, fn, loop_entry=entry):
+                exe.emit('%s/loop%d/iter%d/%s' % (fn, ordn, it, cname), term, st, kind='inv')
+        keep = set()
+        for nm in cut.get('keep', ()):       # induction variables stay concrete
+            from .cexpr import fn_resolver
+            for d in exe.local_objs.values():
+                if d.name == nm and d.kind == 'local':
+                    keep.add(d.id)
+        H = {(oid, path) for (oid, path) in written if path is not None and oid not in keep}
+        self._havoc_set(st, H, 'cut%d_%d' % (ordn, it))
+        if cut.get('forget_pc'):
+            # weaken the context to: function precondition + merge definitions + the invariant (dropping facts is sound)
+            base = exe.pre_states.get(fn)
+            keep_n = len(base.pc) if base is not None else 0
+            def is_def(t):
+                return z3.is_eq(t) and z3.is_const(t.arg(0)) and t.arg(0).decl().name().startswith(('phi#', 'sel#'))
+            st.pc = list(st.pc[:keep_n]) + [t for t in st.pc[keep_n:] if is_def(t)]
+        for cname, term in eval_clauses(exe, inv, st, fn, loop_entry=entry):
+            st.assume(term)
+
+    def _unroll(self, n, st, cond, body, inc, is_do, bound, cut=None, ordn=None):
         exe = self.exe
         exits = []
         cur = [st]
         it = 0
         first = is_do
+        entry = st.fork() if cut else None
+        prev_log = self.write_log
+        if cut:
+            self.write_log = set()
+        try:
+            return self._unroll_body(n, cur, cond, body, inc, is_do, bound, cut, ordn, entry, exits, first)
+        finally:
+            if cut:
+                if prev_log is not None:
+                    prev_log |= self.write_log
+                self.write_log = prev_log
+
+    def _unroll_body(self, n, cur, cond, body, inc, is_do, bound, cut, ordn, entry, exits, first):
+        exe = self.exe
+        it = 0
         while cur:
+            if cut:
+                if len(cur) != 1:
+                    raise FrontEndError('cut_unroll needs a single state at each loop head')
+                self._cut(cur[0], cut, ordn, it, entry, set(self.write_log))
             if it > bound:
                 raise FrontEndError('loop %s in %s needs an invariant (not a constant trip count within %d)' % (exe._loc(n), exe.fn_stack[-1], bound))
             nxt = []
